@@ -274,14 +274,21 @@ pub fn run(ctx: &mut Ctx) {
             let f1 = Decimal::new(rr.range(1, 999), 3);
             let sell = Decimal::from(rr.range(1, 3)).min(q1);
             let ps = Decimal::new(rr.range(10_005, 99_995), 3);
-            let text = format!("2023-01-10 BUY ACME {q1} @ {p1} FEES {f1}\n2023-02-10 BUY ACME {q2} @ {} FEES 0.005\n2023-06-01 SELL ACME {sell} @ {ps} FEES 0.125\n", Decimal::new(rr.range(10_000, 99_999), 4));
+            let p2 = Decimal::new(rr.range(10_000, 99_999), 4);
+            // every third ledger is sold in March and bought back in April, within thirty days but in the next
+            // tax year; every third (offset 1) is bought back on the day of the sale and again a week later
+            let (text, ddate) = match i % 3 {
+                1 => (format!("2023-01-10 BUY ACME {q1} @ {p1} FEES {f1}\n2023-03-{} SELL ACME {sell} @ {ps} FEES 0.125\n2023-04-{:02} BUY ACME {q2} @ {p2} FEES 0.005\n", 10 + i % 20, 6 + i % 3), format!("2023-03-{}", 10 + i % 20)),
+                2 => (format!("2023-01-10 BUY ACME {q1} @ {p1} FEES {f1}\n2023-06-01 SELL ACME {} @ {ps} FEES 0.125\n2023-06-01 BUY ACME 1 @ {p2} FEES 0.005\n2023-06-08 BUY ACME 1 @ {p2} FEES 0.015\n", sell + Decimal::TWO), "2023-06-01".to_string()),
+                _ => (format!("2023-01-10 BUY ACME {q1} @ {p1} FEES {f1}\n2023-02-10 BUY ACME {q2} @ {p2} FEES 0.005\n2023-06-01 SELL ACME {sell} @ {ps} FEES 0.125\n"), "2023-06-01".to_string()),
+            };
             let Ok(txs) = cgt_core::parser::parse_file(&text) else { continue };
             let cfg = run_impl::config_from(&run_impl::embedded_exemptions());
             let Ok(rep) = cgt_core::calculator::calculate(&txs, None, None, &cfg) else { continue };
             let Some(d) = rep.tax_years.iter().flat_map(|y| y.disposals.iter()).next() else { continue };
             ctx.ev.evaluations += 1;
             ctx.ev.count("mcp-explanations");
-            let s = session(&[call(1, "explain_matching", json!({"transactions": text, "ticker": "ACME", "disposal_date": "2023-06-01"}))], false);
+            let s = session(&[call(1, "explain_matching", json!({"transactions": text, "ticker": "ACME", "disposal_date": ddate}))], false);
             let Some(ans) = s.responses.iter().find(|v| v["id"].as_u64() == Some(1)).and_then(result_text) else { ctx.ev.violation("oracle", "explain_matching gave no result for a listed disposal".into(), format!("# property C17\n{text}")); continue };
             let e: serde_json::Value = serde_json::from_str(&ans).unwrap_or_default();
             let shown_ok = |v: &serde_json::Value, w: Decimal| v.as_str().and_then(|x| x.parse::<Decimal>().ok()).map(|x| { let (xq, wq) = (Q::from_dec(x), Q::from_dec(w)); xq.eq(&wq) || xq.eq(&half_away_pence(&wq)) }).unwrap_or(false);
@@ -289,12 +296,12 @@ pub fn run(ctx: &mut Ctx) {
             if !shown_ok(&e["proceeds"], d.proceeds) { bad = Some(format!("proceeds {} shown as {}", d.proceeds, e["proceeds"])); }
             let total: Decimal = d.matches.iter().map(|m| m.gain_or_loss).sum();
             if !shown_ok(&e["total_gain_or_loss"], total) { bad = Some(format!("total result {} shown as {}", total, e["total_gain_or_loss"])); }
+            if e["matches"].as_array().map(|a| a.len()) != Some(d.matches.len()) { bad = Some(format!("{} legs in the report, {} in the explanation", d.matches.len(), e["matches"].as_array().map(|a| a.len()).unwrap_or(0))); }
             for (k, m) in d.matches.iter().enumerate() {
                 if !shown_ok(&e["matches"][k]["allowable_cost"], m.allowable_cost) { bad = Some(format!("leg {k} allowable cost {} shown as {}", m.allowable_cost, e["matches"][k]["allowable_cost"])); }
                 if !shown_ok(&e["matches"][k]["gain_or_loss"], m.gain_or_loss) { bad = Some(format!("leg {k} gain {} shown as {}", m.gain_or_loss, e["matches"][k]["gain_or_loss"])); }
             }
-            if let Some(what) = bad { ctx.ev.violation("oracle", format!("MCP explain_matching: {what}"), format!("# property C17\n# oracle: explain_matching for ACME 2023-06-01 over `cgt-tool mcp`: {what}\n{text}")); }
-            let _ = i;
+            if let Some(what) = bad { ctx.ev.violation("oracle", format!("MCP explain_matching: {what}"), format!("# property C17\n# oracle: explain_matching for ACME {ddate} over `cgt-tool mcp`: {what}\n{text}")); }
         }
     }
 
